@@ -903,6 +903,9 @@ class Mesh(Observable):
         ), "dofsValues must be a (Nn * dof_n, ) array."
         dof_n = dofsValues.size // Ncoords
 
+        # points, whatever their dtype: integer-typed coordinates would select the pixel-grid shortcut of Get_Mapping, which attributes each pixel of an image to one element and leaves out those on the upper bounds of the mesh
+        coordinates_n = np.asarray(coordinates_n, dtype=float)
+
         Nn = coordinates_n.shape[0]
         interpolated_values_n = np.zeros((Nn, dof_n), dtype=float)
         # query coordinates not yet assigned to an element of a previous group
